@@ -483,7 +483,18 @@ Proof.
   destruct (h_close (c_io (d_cfg d)) (MData (ms_active_id m)) (ms_active m)) as [a1 ev7]. cbn [fst] in *.
   pose proof (ms_close_older_spec (c_io (d_cfg d)) (ms_older m)) as Hcl.
   destruct (ms_close_older (c_io (d_cfg d)) (ms_older m)) as [o1 ev8]. cbn [fst] in Hcl.
+  destruct (db_sync d2) as [d3 evS] eqn:Hsy.
   injection Hm as <- <- <- _.
+  (* the final flush of the active file is a Sync operation on the state the scan left *)
+  enough (HG2 : G d2 (mkDisk (k_data k) (k_hint k)
+                        (Some (mkMdir (older_set o1 (ms_active_id m) a1) (Some h1) (Some mid))))
+                  (s_mops (s_mops M pro) (concat (firstn n sched)))).
+  { assert (Hst : step (d2, mkDisk (k_data k) (k_hint k)
+                        (Some (mkMdir (older_set o1 (ms_active_id m) a1) (Some h1) (Some mid)))) OpSync
+                  = ((d3, mkDisk (k_data k) (k_hint k)
+                        (Some (mkMdir (older_set o1 (ms_active_id m) a1) (Some h1) (Some mid)))), RErr None, evS))
+      by (cbn [step]; rewrite Hsy; reflexivity).
+    exact (proj1 (G_plain _ _ _ OpSync _ _ _ _ HG2 I Hst)). }
   split; [exact HL2|].
   (* what the rewritten files denote *)
   set (M0 := s_apply_recs [] (map fst (ms_recs m))).
